@@ -116,17 +116,20 @@ def run_instance(job):
         sig = inspect.signature(lem.fn)
         region_srcs = [f for f in findings if f.get("lemma") == lemma_name and f.get("module", modname) == modname and f.get("instance", label) == label]
         used = {"transparent": set(), "contracts": set(), "models": set()}
+        lem_params = dict(lem.params)
+        if lem.cfg.get("dynamic_params") is not None:
+            lem_params.update(lem.cfg["dynamic_params"](fixed))
 
         def body(path):
-            I = Interp(path, sources, registry, dict(lem.cfg))
+            I = Interp(path, sources, registry, {k: v for k, v in lem.cfg.items() if k != 'dynamic_params'})
             I.float_mode = ex.float_mode
             args = {}
             concs = {}
             for pname in sig.parameters:
                 if pname in fixed:
                     spec = api.Const(fixed[pname])
-                elif pname in lem.params:
-                    spec = lem.params[pname]
+                elif pname in lem_params:
+                    spec = lem_params[pname]
                     if not isinstance(spec, api.Spec):
                         spec = api.Const(spec)
                 else:
@@ -137,10 +140,10 @@ def run_instance(job):
                 r = registry.eval_region(I, f["region"], args, lem.fn)
                 zb = I.as_z3_bool(r)
                 path.assume(z3.Not(zb) if not isinstance(zb, bool) else (not zb))
-            vcs = []
+            vcs = path.obligations
 
             def concretize():
-                m = path.solver.model()
+                m = path.last_model
 
                 def ev(e):
                     return m.eval(e, model_completion=True)
@@ -178,14 +181,7 @@ def run_instance(job):
                     return
                 if r == z3.sat:
                     # model of pc & !goal
-                    path.solver.push()
-                    if neg is not None:
-                        path.solver.add(neg)
-                    path.solver.check()
-                    try:
-                        cargs = concretize()
-                    finally:
-                        path.solver.pop()
+                    cargs = concretize()
                     native = _native_run(lem, cargs)
                     record("assert", site, "refuted", dt, "z3 sat", {k: _safe_repr(x) for k, x in cargs.items()}, native)
                     vcs[-1]["_pickle"] = _pickle_args(cargs)
@@ -239,8 +235,8 @@ def run_instance(job):
             return vcs
 
         results = ex.run(body)
-        for path, vcs in results:
-            res["vcs"].extend(vcs)
+        for path, _ in results:
+            res["vcs"].extend(path.obligations)
         res["paths"] = ex.stats["paths"]
         res["aborted"] = ex.stats["aborted"]
         res["solver_calls"] = ex.stats["solver_calls"]
@@ -309,7 +305,16 @@ def summarize(prop, tier, results, wall, findings, mutations, quiet=False):
     refuted = [(r, v) for r, v in vcs if v["status"] == "refuted"]
     undecided = [(r, v) for r, v in vcs if v["status"] == "undecided"]
     discharged = [(r, v) for r, v in vcs if v["status"] in ("discharged", "unreachable")]
-    mism = [(r, m) for r in results for m in r["diff_mismatch"]]
+    # a universally quantified assert (forall_range) is split over several paths: a native failure at a
+    # site that another path of the same instance refuted is that refutation, not an engine mismatch
+    def _expected(r, m):
+        nat = m.get("native")
+        if not nat or nat[0] != "assert":
+            return False
+        line = nat[1].split(":")[0].replace("line ", "").strip()
+        return any(v["status"] == "refuted" and v["site"].endswith(":" + line) for v in r["vcs"])
+
+    mism = [(r, m) for r in results for m in r["diff_mismatch"] if not _expected(r, m)]
     sites = {}
     for r, v in vcs:
         k = (r["lemma"], v["site"] if v["kind"] == "assert" else v["kind"])
